@@ -1,5 +1,5 @@
 From V Require Import Prelude.Base Prelude.PyInt Prelude.PySlice gen.K_client gen.C_client gen.C_rpc.
-From V Require Import Model.Pdu Model.Request Model.Seal.
+From V Require Import Model.Pdu Model.Request Model.RpcDispatch Model.Seal.
 
 Lemma guards_meaning :
   (forall a o n, k_unwrap_guard a o n = true <-> a = true /\ o = true /\ n <> 0) /\
@@ -12,6 +12,26 @@ Qed.
 (* a reply that carries no security trailer is refused when the call was sealed *)
 Lemma reject_meaning : forall a o n, k_reject_unsealed a o n = true <-> a = true /\ o = true /\ n = 0.
 Proof. unfold k_reject_unsealed. intros [] [] n; cbn; lia. Qed.
+
+(* PDU.unpack yields a Response only from a RESPONSE PDU, decoded by Response.unpack *)
+Lemma pdu_unpack_response fuel data r t :
+  pdu_unpack fuel data = Ok (PResponse r, t) ->
+  exists body h st, pdu_split data = Ok (body, h, st) /\ h_packet_type h = c_PT_RESPONSE /\ response_unpack body h st = Ok r.
+Proof.
+  unfold pdu_unpack. destruct (pdu_split data) as [[[body h] st]|e] eqn:Es; [|discriminate]. cbn [bind].
+  unfold registry_lookup. destruct (mem (h_packet_type h) c_PDU_registry); cbn [bind]; [|discriminate].
+  destruct (h_packet_type h =? c_PT_REQUEST) eqn:E0.
+  { destruct (request_unpack body h st); cbn [bind]; discriminate. }
+  destruct (h_packet_type h =? c_PT_RESPONSE) eqn:E1.
+  { destruct (response_unpack body h st) as [m|e] eqn:Er; cbn [bind]; [|discriminate].
+    intro H. apply Ok_inj in H. inversion H; subst. exists body, h, st. repeat split; auto. apply Z.eqb_eq. exact E1. }
+  repeat match goal with
+  | |- (if ?c then _ else _) = _ -> _ => destruct c
+  end; intro H;
+  repeat match type of H with
+  | (let* _ := ?x in _) = _ => let r := fresh "r" in destruct x as [r|?]; cbn [bind] in H; [try destruct r|discriminate]
+  end; discriminate.
+Qed.
 
 Section Sealed.
 Variable unwrap : unwrap_fn.
@@ -31,18 +51,14 @@ Proof.
     cbn [ua_header ua_body ua_trailer ua_signature ua_sign unwrap_slices] in *.
     destruct (unwrap _ _ _ _ sign) as [dec|e] eqn:Eu; [|discriminate]. cbn [bind] in H.
     exists dec. split; [reflexivity|]. rewrite Hoff in H.
-    destruct (pdu_split _) as [[[body h] st]|e] eqn:Es; [|discriminate]. cbn [bind] in H.
-    destruct (registry_lookup (h_packet_type h)) as [x|e]; [|discriminate]. cbn [bind] in H.
-    destruct (negb (h_packet_type h =? c_PT_RESPONSE)) eqn:Et; [discriminate|].
-    destruct (response_unpack body h st) as [r'|e] eqn:Er; [|discriminate]. cbn [bind] in H.
-    destruct (k_reject_unsealed true true (h_auth_len hdr)); [discriminate|]. apply Ok_inj in H. subst r'.
-    exists body, h, st. repeat split; auto. apply negb_false_iff in Et. lia.
+    destruct (pdu_unpack _ _) as [[p t]|e] eqn:Ep; [|discriminate]. cbn [bind] in H.
+    destruct p; try discriminate.
+    destruct (k_reject_unsealed true true (h_auth_len hdr)); [discriminate|]. apply Ok_inj in H. subst m.
+    exact (pdu_unpack_response _ _ _ _ Ep).
   - (* no unwrap happened: the reply is refused *)
     exfalso. cbn [bind] in H.
-    destruct (pdu_split resp) as [[[body h] st]|e]; [|discriminate]. cbn [bind] in H.
-    destruct (registry_lookup (h_packet_type h)) as [x|e]; [|discriminate]. cbn [bind] in H.
-    destruct (negb (h_packet_type h =? c_PT_RESPONSE)); [discriminate|].
-    destruct (response_unpack body h st) as [r'|e]; [|discriminate]. cbn [bind] in H.
+    destruct (pdu_unpack _ _) as [[p t]|e] eqn:Ep; [|discriminate]. cbn [bind] in H.
+    destruct p; try discriminate.
     assert (Hn : h_auth_len hdr = 0).
     { destruct (Z.eq_dec (h_auth_len hdr) 0) as [|Hne]; [assumption|].
       assert (k_unwrap_guard true true (h_auth_len hdr) = true) by (apply Hg; auto). congruence. }
